@@ -385,8 +385,8 @@ def judge(ctx, case, site, gaps, shape, mtype, res, exp_cols, weights, cols_of=N
             return None
         alt = alt_exp()
         alt_list = [wi * e for wi, e in zip(w, alt)]
-        if alt_list == exp_list:
-            return None
+        if sum(1 for x, y in zip(alt_list, exp_list) if x != y) < 4:
+            return None          # too few discriminating columns to name the cause
         if (lst is None or lst == alt_list) and total == sum(alt_list):
             return "score-as-if-gaps-were-%s" % ("states" if gaps else "missing-data")
         return None
@@ -508,12 +508,13 @@ def run_wide(chunk, ctx):
 
 
 def post_wide(auxes, ctx):
-    """the statement's clause 'independent of root position and child order', literally"""
+    """the statement's clause 'independent of root position and child order', literally: totals over all
+    columns of calls through the same function on different drawings of one unrooted tree"""
     groups = {}
     for aux in auxes:
         for rec in (aux or ()):
             if isinstance(rec, tuple) and len(rec) == 9:
-                groups.setdefault(rec[:4], []).append(rec)
+                groups.setdefault(rec[:4] + (SITE[rec[7]].split("[")[0],), []).append(rec)
     for key in sorted(groups):
         recs = sorted(groups[key], key=lambda r: (r[4], r[5]))
         ctx.count("rooting_order_classes_compared")
@@ -525,11 +526,11 @@ def post_wide(auxes, ctx):
             mk = lambda x: {"kind": "wide", "n": x[0], "shape": x[6], "gaps": x[2], "alph": x[3], "route": x[7]}
             if r[8] != seen_d[r[4]][8]:
                 a = seen_d[r[4]]
-                ctx.violation("score-depends-on-child-order|%s" % rootkind(r[6]),
+                ctx.violation("%s|score-depends-on-child-order|%s" % (key[4], rootkind(r[6])),
                               "total over all columns %r for %s and %r for %s" % (a[8], newick(a[6]), r[8], newick(r[6])),
                               {"kind": "pair", "a": mk(a), "b": mk(r), "what": "child-order"})
             elif r[8] != base[8]:
-                ctx.violation("score-depends-on-root-position",
+                ctx.violation("%s|score-depends-on-root-position" % key[4],
                               "total over all columns %r for %s and %r for %s (same unrooted tree)" % (
                                   base[8], newick(base[6]), r[8], newick(r[6])),
                               {"kind": "pair", "a": mk(base), "b": mk(r), "what": "root-position"})
@@ -657,7 +658,7 @@ def e1_chunks(tier):
         for ti in range(len(topologies(n))):
             nd = len(drawings(n, ti))
             parts = 1
-            if size * nd >= 150000:
+            if size * nd >= 150000 and n <= 5:      # n = 6: the reference table dominates, one chunk per topology
                 parts = min(nd, max(2, (size * nd) // 100000))
             for gaps in (True, False):
                 for p in range(parts):
@@ -1024,11 +1025,13 @@ def replay(case, ctx):
         c = type(ctx)()
         ta = check_wide(case["a"], c)
         tb = check_wide(case["b"], c)
+        site = SITE[case["a"]["route"]].split("[")[0]
         if ta is not None and tb is not None and ta != tb:
             if case.get("what") == "child-order":
-                ctx.violation("score-depends-on-child-order|%s" % rootkind(tup(case["b"]["shape"])), "replayed pair: %r vs %r" % (ta, tb), case)
+                ctx.violation("%s|score-depends-on-child-order|%s" % (site, rootkind(tup(case["b"]["shape"]))),
+                              "replayed pair: %r vs %r" % (ta, tb), case)
             else:
-                ctx.violation("score-depends-on-root-position", "replayed pair: %r vs %r" % (ta, tb), case)
+                ctx.violation("%s|score-depends-on-root-position" % site, "replayed pair: %r vs %r" % (ta, tb), case)
     elif k == "hist":
         ops = [tup(o) for o in case["ops"]]
         e2_step((tuple(case["start"]), tuple(ops[:-1])), ops[-1], ctx)
